@@ -293,6 +293,31 @@ Definition layout (ps : list pic) : list lspec := flat_map lay_top ps.
 Fixpoint preorder (p : pic) : list str :=
   match p with Pic n _ _ kids => n :: flat_map preorder kids end.
 
+(** ** The benchmark calls a tree is expected to make: none for ignored
+    entries and none when listing; otherwise one per argument case and thread
+    count, in order. *)
+Definition calls_bench (id : N) (arg : option nat) (tcs : list N) : list (N * option nat * N) :=
+  map (fun tc => (id, arg, tc)) tcs.
+
+Definition calls_entry (a : action) (id : N) (ignored : bool) (args : option (list str))
+           (threads : list N) : list (N * option nat * N) :=
+  if ignored then []
+  else if is_list a then []
+  else
+    let tcs := match threads with [] => [1%N] | _ => threads end in
+    match args with
+    | None => calls_bench id None tcs
+    | Some names => flat_map (fun ia => calls_bench id (Some (fst ia)) tcs) (enum_from 0 names)
+    end.
+
+Fixpoint calls (a : action) (n : node) : list (N * option nat * N) :=
+  match n with
+  | Group _ _ children => flat_map (calls a) children
+  | Bench id _ _ ignored args threads _ => calls_entry a id ignored args threads
+  end.
+
+Definition all_calls (a : action) (t : list node) : list (N * option nat * N) := flat_map (calls a) t.
+
 (** ** Boolean specification on an observed output *)
 
 Fixpoint str_eqb (a b : str) : bool :=
